@@ -431,3 +431,16 @@ mod tests {
         assert!(l2.cluster_bits == cluster_bits as u32);
     }
 }
+
+#[cfg(qcow2_rs_verif)]
+impl L2Entry {
+    /// verification hook: build an entry from a raw value without validation
+    pub fn verif_from_raw(v: u64) -> Self {
+        L2Entry(v)
+    }
+
+    /// verification hook: raw value
+    pub fn verif_raw(&self) -> u64 {
+        self.0
+    }
+}
